@@ -63,6 +63,15 @@ impl Property for C11 {
             }
         }
         // phrases: a line of two words
+        // a line of two words of which one or both fail: the line fails with the error of its first failing word
+        if n >= 2 && (singles[0].is_err() || singles[1].is_err()) && !words[0].contains(' ') && !words[1].contains(' ') && !words[0].is_empty() && !words[1].is_empty() {
+            let line = format!("{} {}", words[0], words[1]);
+            let want = expect(&[0, 1]);   // same phases as for a list: word syntax, rule syntax, then the first word whose application fails
+            match run(&[line.clone()]) {
+                Err(_) => return Outcome::skip("a call did not return (C02's business)"),
+                Ok(got) => { let got = got.map(|_| ()).map_err(|e| err_key(&e)); if got != want.clone().map(|_| ()) { return Outcome::fail("a line of several words does not fail with the error of its first failing word", json!({"line": line, "got": format!("{got:?}"), "expected": format!("{want:?}"), "groups": case["groups"]})) } }
+            }
+        }
         // (not when a rule deleted a whole word: an empty word is C08's business, and what a phrase prints for it is not defined by the property)
         if n >= 2 && singles[0].is_ok() && singles[1].is_ok() && !singles[0].as_ref().unwrap()[0].is_empty() && !singles[1].as_ref().unwrap()[0].is_empty() {
             let line = format!("{} {}", words[0], words[1]);
